@@ -102,7 +102,7 @@ def build(cfg, srcs, reload=True, fea=True, already_pico=False):
         if fea:
             fd, fea_path = tempfile.mkstemp(suffix=".fea", prefix="nev-")
             with os.fdopen(fd, "w") as f:
-                f.write(features.generate_fea([s.cps for s in srcs]))
+                f.write(features.generate_fea({s.cps for s in srcs if len(s.cps) > 1}))   # as write_fea does
             cfg = cfg._replace(fea_file=fea_path)
         else:
             cfg = cfg._replace(fea_file="")
